@@ -2,8 +2,8 @@
 
 PROP = dict(
     level="proof",
-    lean_modules=['PopsModel.Props.C05', 'PopsModel.Props.C05Removals'],
-    theorems=['Pops.C05_shift', 'Pops.C05_no_early_transition', 'Pops.C05_exact_latency', 'Pops.C05_L0_equals_SI', 'Pops.C05_latency_with_removals'],
+    lean_modules=['PopsModel.Props.C05', 'PopsModel.Props.C05Removals', 'PopsModel.Props.C05Arrival'],
+    theorems=['Pops.C05_shift', 'Pops.C05_no_early_transition', 'Pops.C05_exact_latency', 'Pops.C05_L0_equals_SI', 'Pops.C05_latency_with_removals', 'Pops.C05_arrival_stays_exposed', 'Pops.C05_arrivals_compose'],
     commands=['hp.stepfwd', 'hp.l0'],
     runs={
         "quick": [('h_host', 'pool', 0, 1500), ('h_model', 'model', 0, 400), ('h_model', 'l0', 0, 150)],
@@ -12,7 +12,7 @@ PROP = dict(
     exhaustive={"quick": False, "thorough": False},
     rule="case (pool) = one random landscape (7 shapes incl. 1x1, 1xN, Nx1, rows != cols; SI/SEI, latency 0..3, 1..4 mortality cohorts, 20% empty cells) with 5-14 random operations (add/land a disperser with scripted uniform, deterministic generation, pests from/to, host move incl. same-cell, removal/pesticide treatment in both modes with coefficients k/64, pesticide end, survival rate, lethal temperature, mortality, latency step); case (model) = one random Model configuration (feature subsets, calendar with day/week/month steps, both entry points, injected kernel throwing dispersers inside / at the source / just outside / far outside) run for up to 40 steps with the state printed after every action; non-trivial = at least 3 different operation kinds on a landscape with a suitable cell (pool) / at least 3 steps (model); distinct = blake2b of the case's protocol lines",
     assumptions=[],
-    explanation="Theorems: the latency step is a shift register (front cohort to infected and youngest mortality cohort iff step >= L, all cohorts age by one); no transition before step L; after n spread steps infected = initial + first min(n, L+1) cohorts + exactly the exposures of the first n-L steps; with L = 0 the SEI spread step equals the SI one. The driver evaluates stepForwardSpec and the no-early-transition predicate on the implementation's step_forward and compares exactly.",
+    explanation="Arrivals: an established disperser makes its host exposed (youngest exposed cohort), never infected, on either arrival behaviour (theorem C05_arrival_stays_exposed; the driver evaluates the same predicate arrivalsStayExposed on every observed spread step of an SEI case, h_model runs 30% of cases with arrival_behavior=land). Theorems: the latency step is a shift register (front cohort to infected and youngest mortality cohort iff step >= L, all cohorts age by one); no transition before step L; after n spread steps infected = initial + first min(n, L+1) cohorts + exactly the exposures of the first n-L steps; with L = 0 the SEI spread step equals the SI one. The driver evaluates stepForwardSpec and the no-early-transition predicate on the implementation's step_forward and compares exactly.",
 )
 
 META = dict(engine="h_host", design_ref="DESIGN.md section 3, C05",
